@@ -75,14 +75,14 @@ type c16Witness struct {
 // c16Env is one fake server (UDP + TCP on one port) with its two upstream handles.
 type c16Env struct {
 	arrivals map[string]int // UDP datagrams seen per question (tclate)
-	group   string
-	port    int
-	udp     *scripted.Server
-	tcp     *scripted.Server // nil when the TCP port refuses
-	refuse  *scripted.RefusePort
-	ups     map[string]upstream.Upstream // by address form
-	mu      sync.Mutex
-	scripts map[string]*c16Ex
+	group    string
+	port     int
+	udp      *scripted.Server
+	tcp      *scripted.Server // nil when the TCP port refuses
+	refuse   *scripted.RefusePort
+	ups      map[string]upstream.Upstream // by address form
+	mu       sync.Mutex
+	scripts  map[string]*c16Ex
 }
 
 func c16NewEnv(group string) (*c16Env, error) {
@@ -631,7 +631,6 @@ func c16AfterFailures(c *Ctx) {
 		e.close()
 	}
 }
-
 
 // c16Slow: the UDP reply decides, however long it takes. A complete reply that arrives after 2.6 s
 // is returned as received and nothing is sent over TCP; a truncated reply that arrives after 1.5 s
